@@ -9,7 +9,6 @@ import (
 	"net/netip"
 	"slices"
 	"strings"
-	"sync"
 	"time"
 
 	"github.com/mycoria/mycoria/config"
@@ -772,14 +771,7 @@ func describe(st config.Store) string {
 	return b.String()
 }
 
-func parallel(n int, fn func(w int)) {
-	var wg sync.WaitGroup
-	for w := 0; w < n; w++ {
-		wg.Add(1)
-		go func(w int) { defer wg.Done(); fn(w) }(w)
-	}
-	wg.Wait()
-}
+func parallel(n int, fn func(w int)) { core.Parallel(n, fn) }
 
 func run(c *core.Ctx) {
 	res := c.Res
